@@ -7,7 +7,8 @@ import typing as T
 
 from ..core import Module, Repo, Undecided, AnchorMissing, norm, short, attr_chain
 from ..report import RuleCtx
-from ..consteval import fold_expr, Regex
+from ..consteval import Regex
+from .c01_sym import fold_expr
 from .. import rx
 from .c01_sym import sym_paths, is_call, show, subterms
 from .c01_parser import MPARSER, mro_cached, _summaries, actual_name
